@@ -357,7 +357,7 @@ pub fn serve() -> i32 {
             continue;
         }
         let resp = match serde_json::from_str::<ValidCase>(&line) {
-            Ok(c) => match run_history(c.fam, &c.h, |_, _, _, _, _| Ok(())) {
+            Ok(c) => match run_history(c.fam, &c.h, |_, _, _, _, _, _| Ok(())) {
                 Ok(outs) => serde_json::json!({ "outs": outs }),
                 Err(e) => serde_json::json!({ "load_error": e }),
             },
@@ -372,7 +372,7 @@ pub fn serve() -> i32 {
 }
 
 fn run_valid(c: &ValidCase) -> Verdict {
-    let here = run_history(c.fam, &c.h, |_, _, _, _, _| Ok(()));
+    let here = run_history(c.fam, &c.h, |_, _, _, _, _, _| Ok(()));
     let req = serde_json::to_string(c).unwrap();
     let line = match peer_exec(&req) {
         Ok(l) => l,
